@@ -107,19 +107,46 @@ Proof.
   rewrite res_shape_ins, res_shape_rep. reflexivity.
 Qed.
 
-Lemma check_run_l v out : agree_C15 true v out = true -> check_C15 v out = true.
+Lemma check_edit_of_agree v out : agree_edit true v out = true -> check_edit v out = true.
 Proof.
-  unfold agree_C15, check_C15.
+  unfold agree_edit, check_edit.
   destruct out as [z|[|pv [|[z|ch] [|x r]]]]; try discriminate.
   intros H. apply andb_true_iff in H as [H1 H2].
   apply val_eqb_eq in H1. rewrite <- H1, probe_ok_probe. cbn [andb].
   eapply all2_impl; [|exact H2]. intros s o. apply step_check_of_agree.
 Qed.
 
+(** * The corrupt_spelling stream *)
+Lemma all2_length {A B} (f : A -> B -> bool) a b : all2 f a b = true -> length b = length a.
+Proof.
+  revert b. induction a as [|x a IH]; intros [|y b]; cbn; try congruence.
+  intros E. apply andb_true_iff in E as [_ E]. rewrite (IH _ E). reflexivity.
+Qed.
+
+Lemma all2_right {A B} (f : A -> B -> bool) (g : B -> bool) a b :
+  (forall x y, f x y = true -> g y = true) -> all2 f a b = true -> forallb g b = true.
+Proof.
+  intros H. revert b. induction a as [|x a IH]; intros [|y b]; cbn; try congruence.
+  intros E. apply andb_true_iff in E as [E1 E2]. rewrite (H _ _ E1), (IH _ E2). reflexivity.
+Qed.
+
+Lemma check_e2e_of_agree v out : agree_e2e v out = true -> check_e2e v out = true.
+Proof.
+  unfold agree_e2e, check_e2e. destruct out as [z|ws]; [discriminate|].
+  intros H. rewrite (all2_length _ _ _ H), Nat.eqb_refl. cbn [andb].
+  eapply all2_right; [|exact H]. intros w o. unfold word_agree. destruct o; [discriminate | reflexivity].
+Qed.
+
+Lemma check_run_l v out : agree_C15 true v out = true -> check_C15 v out = true.
+Proof.
+  unfold agree_C15, check_C15. destruct (is_e2e v);
+    [apply check_e2e_of_agree | apply check_edit_of_agree].
+Qed.
+
 (** strict membership implies the text-level membership used at run time *)
 Lemma agree_strict_weak v out : agree_C15 true v out = true -> agree_C15 false v out = true.
 Proof.
-  unfold agree_C15.
+  unfold agree_C15. destruct (is_e2e v); [exact (fun H => H)|]. unfold agree_edit.
   destruct out as [z|[|pv [|[z|ch] [|x r]]]]; try discriminate.
   intros H. apply andb_true_iff in H as [H1 H2]. rewrite H1. cbn [andb].
   eapply all2_impl; [|exact H2]. intros s o. unfold step_agree.
@@ -127,4 +154,34 @@ Proof.
   destruct (outcomes _ _ _ _ _) as [l|]; [|discriminate].
   intros H. apply existsb_exists in H as (m & Hm & H). apply existsb_exists. exists m. split; [exact Hm|].
   apply andb_true_iff in H as [H3 H4]. apply cls_eqb_eq in H3. rewrite H3, nlist_eqb_refl, H4. reflexivity.
+Qed.
+
+(** every state [reach] lists is the end of a chain of exactly [k] calls *)
+Lemma outcomes_all_In c ci ss l o :
+  outcomes_all c ci ss = Some l -> In o l ->
+  exists w ex l', In (w, ex) ss /\ outcomes c (cd_of ci w) (cs_of ci w) w ex = Some l' /\ In o l'.
+Proof.
+  revert l. induction ss as [|[w ex] r IH]; intros l H Hin; cbn in H.
+  - injection H as <-. destruct Hin.
+  - apply opt_app_Some in H as (l1 & l2 & H1 & H2 & ->). apply in_app_iff in Hin as [Hin|Hin].
+    + exists w, ex, l1. split; [left; reflexivity|]. split; assumption.
+    + destruct (IH l2 H2 Hin) as (w' & ex' & l' & Hs & Ho & Hi).
+      exists w', ex', l'. split; [right; exact Hs|]. split; assumption.
+Qed.
+
+Lemma reach_chain c ci k : forall ss l s',
+  reach c ci k ss = Some l -> In s' l -> exists s, In s ss /\ chain c k s s'.
+Proof.
+  induction k as [|k IH]; intros ss l s' H Hin; cbn in H.
+  - injection H as <-. exists s'. split; [exact Hin | apply chain_0].
+  - destruct (outcomes_all c ci ss) as [ss'|] eqn:E; [|discriminate].
+    destruct (IH ss' l s' H Hin) as (o & Ho & Hc).
+    destruct (outcomes_all_In _ _ _ _ _ E Ho) as (w & ex & l' & Hs & Hl & Hi).
+    exists (w, ex). split; [exact Hs|]. eapply chain_S; eassumption.
+Qed.
+
+Lemma reach_sound_l c ci k w ex l s' :
+  reach c ci k [(w, ex)] = Some l -> In s' l -> chain c k (w, ex) s'.
+Proof.
+  intros H Hin. destruct (reach_chain c ci k _ _ _ H Hin) as (s & [<-|[]] & Hc). exact Hc.
 Qed.
